@@ -104,6 +104,7 @@ type Case struct {
 	DelayArg   *uint64 `json:"delay_arg,omitempty"`
 	Delays     map[string]int `json:"delays,omitempty"` // further points: sleep this many ms at every hit
 	HashAlg    string `json:"hash_alg,omitempty"`       // Options.HashAlg of both sides ("" = crc32c)
+	RecvStatsDelayMs  int `json:"recv_stats_delay_ms,omitempty"`  // the receiver's TransferStatsFn (the CLI installs one for its display) takes this long
 	SenderDoneDelayMs int `json:"sender_done_delay_ms,omitempty"` // the sender's FileDoneFn (the CLI installs one) takes this long when a file failed
 }
 
@@ -682,6 +683,11 @@ func runCase(c Case) (res Result) {
 		sopts.TransferStatsFn = func(active, completed int, remaining int64) {}
 	}
 	ropts := transfer.Options{Resume: c.Resume, NoRootDir: c.NoRoot, HashAlg: hashAlg, ParallelFiles: streams}
+	if c.RecvStatsDelayMs > 0 {
+		ropts.TransferStatsFn = func(active, completed int, remaining int64) {
+			time.Sleep(time.Duration(c.RecvStatsDelayMs) * time.Millisecond)
+		}
+	}
 
 	timeout := time.Duration(c.TimeoutMs) * time.Millisecond
 	if timeout == 0 {
